@@ -11,12 +11,16 @@ open CueVerif.Quote (Bytes)
 
 def JNum.kind (n : JNum) : NumLit.Kind := if n.isFloat then .float else .int
 
-/-- the region in which apd's `setExponent` (BaseContext limits ±100000) does not fail:
-the written exponent and the (negated) number of fraction digits are each within the limits,
-and so is the adjusted exponent -/
+/-- the region in which apd's `Context.SetString` (BaseContext limits ±100000) returns no error —
+EXACTLY (`number_value` inside, `number_reject` outside): the written exponent and the (negated)
+number of fraction digits are each within the limits (first `setExponent` pass: every summand,
+which also covers the int32 range of `strconv.ParseInt`), so is the adjusted exponent, and the
+resulting exponent itself is not below the lower limit (second `setExponent` pass, run by
+`c.round`; its upper limit is implied by the one on the written exponent) -/
 def JNum.inApdRange (n : JNum) : Prop :=
   -100000 ≤ expValue n.exp ∧ expValue n.exp ≤ 100000 ∧ (fracDigits n.frac).length ≤ 100000 ∧
-  -100000 ≤ n.exponent + (numDigits n.coeff : Int) - 1 ∧ n.exponent + (numDigits n.coeff : Int) - 1 ≤ 100000
+  -100000 ≤ n.exponent + (numDigits n.coeff : Int) - 1 ∧ n.exponent + (numDigits n.coeff : Int) - 1 ≤ 100000 ∧
+  -100000 ≤ n.exponent
 
 /-! ## the kind: the scanner automaton along the grammar -/
 
@@ -355,8 +359,8 @@ def decodeCore (neg : Bool) (u : Bytes) : Option (NumLit.Kind × ApdDec) :=
       match NumLit.parseNum u with
       | none => none
       | some k =>
-        let d := (apdSetString u).1
-        some (k, if neg then apdNeg d else d)
+        let (d, err) := apdSetString u
+        if err then none else some (k, if neg then apdNeg d else d)
 
 theorem decodeNumber_minus (u : Bytes) : decodeNumber (45 :: u) = decodeCore true u := rfl
 
@@ -375,14 +379,18 @@ theorem decodeNumber_plain (d : Nat) (t : Bytes) (hd : d ≠ 45) :
 
 theorem decodeNumber_eq (n : JNum) (hwf : n.wf = true) :
     decodeNumber n.text =
-      some (n.kind, if n.neg then apdNeg (apdSetString n.utext).1 else (apdSetString n.utext).1) := by
+      if (apdSetString n.utext).2 then none
+      else some (n.kind, if n.neg then apdNeg (apdSetString n.utext).1 else (apdSetString n.utext).1) := by
   obtain ⟨hk1, hk2⟩ := number_kind n hwf
   have hg := guard_false n.utext (utext_bytes n hwf)
   obtain ⟨d, t, hdt, hd1, hd2, -⟩ := utext_head n hwf
   have hcore : ∀ neg, decodeCore neg n.utext =
-      some (n.kind, if neg then apdNeg (apdSetString n.utext).1 else (apdSetString n.utext).1) := by
+      if (apdSetString n.utext).2 then none
+      else some (n.kind, if neg then apdNeg (apdSetString n.utext).1 else (apdSetString n.utext).1) := by
     intro neg
-    simp [decodeCore, hg, hk1, hk2]
+    unfold decodeCore
+    rw [hg]
+    simp only [hk1, hk2, Bool.false_eq_true, if_false]
   cases hneg : n.neg with
   | true =>
     simp only [JNum.text, hneg, if_true, List.cons_append, List.nil_append]
@@ -418,33 +426,39 @@ theorem parseInt32_plain (d : Nat) (t : Bytes) (h1 : d ≠ 45) (h2 : d ≠ 43) :
       rfl
 
 theorem parseIntCore_digits (neg : Bool) (ds : Bytes) (hne : ds.isEmpty = false)
-    (hds : allDigits ds = true) (hb : digitsVal ds ≤ 100000) :
-    parseIntCore neg ds = some (if neg then -(digitsVal ds : Int) else (digitsVal ds : Int)) := by
+    (hds : allDigits ds = true) :
+    parseIntCore neg ds =
+      if (if neg then -(digitsVal ds : Int) else (digitsVal ds : Int)) < -2147483648 ||
+          (if neg then -(digitsVal ds : Int) else (digitsVal ds : Int)) > 2147483647 then none
+      else some (if neg then -(digitsVal ds : Int) else (digitsVal ds : Int)) := by
   have hds' : (ds.all fun c => decide (48 ≤ c) && decide (c ≤ 57)) = true := hds
   unfold parseIntCore
   simp only [hne, hds', Bool.not_true, Bool.or_self, Bool.false_eq_true, if_false]
-  have hv : (ds.foldl (fun a c => a * 10 + (c - 48)) 0) = digitsVal ds := rfl
-  rw [hv]
-  cases neg <;> simp <;> omega
+  rfl
 
-theorem parseInt32_exp (e : JExp) (hwf : e.wf = true) (hb : digitsVal e.digits ≤ 100000) :
-    parseInt32 (signText e.sign ++ e.digits) = some e.value := by
+/-- `strconv.ParseInt(_, 10, 32)` on the written exponent: its value, unless outside int32 -/
+theorem parseInt32_exp (e : JExp) (hwf : e.wf = true) :
+    parseInt32 (signText e.sign ++ e.digits) =
+      if e.value < -2147483648 || e.value > 2147483647 then none else some e.value := by
   obtain ⟨up, sg, dg⟩ := e
   simp only [JExp.wf, Bool.and_eq_true, Bool.not_eq_true'] at hwf
-  simp only at hb
-  have hc := fun neg => parseIntCore_digits neg dg hwf.1 hwf.2 hb
+  have hc := fun neg => parseIntCore_digits neg dg hwf.1 hwf.2
   rcases sg with _ | _ | _
   · obtain ⟨d, t, hdt, hd1, hd2, -⟩ := digits_cons hwf.1 hwf.2
-    simp only [signText, List.nil_append, JExp.value]
+    have hv : JExp.value ⟨up, none, dg⟩ = (digitsVal dg : Int) := rfl
+    simp only [signText, List.nil_append]
+    rw [hv]
     have h := hc false
     simp only [Bool.false_eq_true, if_false] at h
     rw [← h]
     subst hdt
     exact parseInt32_plain d t (by omega) (by omega)
-  · simp only [signText, JExp.value, List.cons_append, List.nil_append]
-    rw [parseInt32_plus, hc]; rfl
-  · simp only [signText, JExp.value, List.cons_append, List.nil_append]
-    rw [parseInt32_minus, hc]; rfl
+  · have hv : JExp.value ⟨up, some false, dg⟩ = (digitsVal dg : Int) := rfl
+    simp only [signText, List.cons_append, List.nil_append]
+    rw [hv, parseInt32_plus, hc]; rfl
+  · have hv : JExp.value ⟨up, some true, dg⟩ = -(digitsVal dg : Int) := rfl
+    simp only [signText, List.cons_append, List.nil_append]
+    rw [hv, parseInt32_minus, hc]; rfl
 
 
 /-- the mantissa stage of `setString` for a non-negative literal -/
@@ -593,20 +607,48 @@ def fracExps : Option Bytes → List Int
   | none => []
   | some f => [-((f.length : Nat) : Int)]
 
-theorem apdExpSplit_eq (m : Bytes) (e : Option JExp) (hm : ∀ x ∈ m, (x == 101) = false)
-    (he : expWf e = true) (hb : -100000 ≤ expValue e ∧ expValue e ≤ 100000) :
-    apdExpSplit (m ++ lexpText e) = some (m, expList e) := by
+/-- what the exponent stage makes of the written exponent: `none` = "parse exponent" error -/
+def expParse : Option JExp → Option (List Int)
+  | none => some []
+  | some e =>
+    match parseInt32 (signText e.sign ++ e.digits) with
+    | some v => some [v]
+    | none => none
+
+/-- the end of `Context.SetString`: the two `setExponent` passes -/
+def apdFin (coeff : Nat) (xs : List Int) : ApdDec × Bool :=
+  let (e, err) := apdSetExponent coeff xs
+  (.finite false coeff e, err || decide (e > apdMaxExponent) || decide (e < apdMinExponent))
+
+theorem apdExpSplit_eq (m : Bytes) (e : Option JExp) (hm : ∀ x ∈ m, (x == 101) = false) :
+    apdExpSplit (m ++ lexpText e) = (expParse e).map fun xs => (m, xs) := by
   cases e with
   | none =>
-    simp only [lexpText, List.append_nil, apdExpSplit, findIdx_none _ m hm, expList]
+    simp only [lexpText, List.append_nil, apdExpSplit, findIdx_none _ m hm, expParse, Option.map_some]
+  | some e =>
+    simp only [lexpText, apdExpSplit, findIdx_hit _ m 101 _ hm rfl, drop_succ_append,
+      List.take_left, expParse]
+    cases parseInt32 (signText e.sign ++ e.digits) <;> rfl
+
+/-- either the written exponent fits int32 and is handed on, or "parse exponent" fails -/
+theorem expParse_cases (e : Option JExp) (he : expWf e = true) :
+    (expParse e = some (expList e) ∧ -2147483648 ≤ expValue e ∧ expValue e ≤ 2147483647) ∨
+    (expParse e = none ∧ (expValue e < -2147483648 ∨ 2147483647 < expValue e)) := by
+  cases e with
+  | none => left; exact ⟨rfl, by simp [expValue], by simp [expValue]⟩
   | some e =>
     simp only [expWf] at he
-    have hv : digitsVal e.digits ≤ 100000 := by
-      simp only [expValue, JExp.value] at hb
-      rcases hsg : e.sign with _ | _ | _ <;> rw [hsg] at hb <;> simp only at hb <;> omega
-    have hp := parseInt32_exp e he hv
-    simp only [lexpText, apdExpSplit, findIdx_hit _ m 101 _ hm rfl, drop_succ_append, hp,
-      List.take_left, expList]
+    have hp := parseInt32_exp e he
+    simp only [expParse, expList, expValue]
+    by_cases hb : e.value < -2147483648 ∨ 2147483647 < e.value
+    · right
+      rw [if_pos (by simp only [Bool.or_eq_true, decide_eq_true_eq]; omega)] at hp
+      rw [hp]
+      exact ⟨rfl, hb⟩
+    · left
+      rw [if_neg (by simp only [Bool.or_eq_true, decide_eq_true_eq]; omega)] at hp
+      rw [hp]
+      exact ⟨rfl, by omega, by omega⟩
 
 theorem all_digits_append (a b : Bytes) (ha : allDigits a = true) (hb : allDigits b = true) :
     allDigits (a ++ b) = true := by
@@ -615,9 +657,8 @@ theorem all_digits_append (a b : Bytes) (ha : allDigits a = true) (hb : allDigit
 
 theorem apdMant_eq (int : Bytes) (f : Option Bytes) (exps : List Int)
     (hne : int.isEmpty = false) (hi : allDigits int = true) (hf : fracWf f = true) :
-    (apdMant (int ++ fracText f) exps).1 =
-      .finite false (digitsVal (int ++ fracDigits f))
-        (apdSetExponent (digitsVal (int ++ fracDigits f)) (exps ++ fracExps f)).1 := by
+    apdMant (int ++ fracText f) exps =
+      apdFin (digitsVal (int ++ fracDigits f)) (exps ++ fracExps f) := by
   have hfd : allDigits (fracDigits f) = true := by
     cases f with
     | none => rfl
@@ -628,20 +669,18 @@ theorem apdMant_eq (int : Bytes) (f : Option Bytes) (exps : List Int)
     cases int with
     | nil => cases hne
     | cons _ _ => rfl
-  have hfold : (int ++ fracDigits f).foldl (fun a c => a * 10 + (c - 48)) 0 =
-      digitsVal (int ++ fracDigits f) := rfl
   have key : ∀ m' exps', m' = int ++ fracDigits f →
       (if !(m'.all fun c => decide (48 ≤ c) && decide (c ≤ 57)) then (ApdDec.nan false, true)
        else if m'.isEmpty then (ApdDec.nan false, true)
        else
          let coeff := m'.foldl (fun a c => a * 10 + (c - 48)) 0
          let (e, err) := apdSetExponent coeff exps'
-         (ApdDec.finite false coeff e, err || decide (e > apdMaxExponent) || decide (e < apdMinExponent))).1 =
-      .finite false (digitsVal (int ++ fracDigits f))
-        (apdSetExponent (digitsVal (int ++ fracDigits f)) exps').1 := by
+         (ApdDec.finite false coeff e, err || decide (e > apdMaxExponent) || decide (e < apdMinExponent))) =
+      apdFin (digitsVal (int ++ fracDigits f)) exps' := by
     intro m' exps' hm'
     subst hm'
-    simp only [hall, hne', Bool.not_true, Bool.false_eq_true, if_false, hfold]
+    simp only [hall, hne', Bool.not_true, Bool.false_eq_true, if_false]
+    rfl
   cases f with
   | none =>
     have h46 := findIdx_none (· == 46) int (digits_no int hi 46 (by omega))
@@ -658,6 +697,11 @@ theorem apdMant_eq (int : Bytes) (f : Option Bytes) (exps : List Int)
       simp only [List.length_append, List.length_cons]; omega
     simp only [List.take_left, drop_succ_append, hlen]
     exact key _ _ (by simp [fracDigits])
+
+theorem numDigits_pos (c : Nat) : 1 ≤ numDigits c := by
+  unfold numDigits
+  dsimp only
+  split <;> omega
 
 theorem apdSetExponent_ok (coeff : Nat) (xs : List Int)
     (h : ∀ x ∈ xs, -100000 ≤ x ∧ x ≤ 100000)
@@ -679,61 +723,150 @@ theorem apdSetExponent_ok (coeff : Nat) (xs : List Int)
   simp only [Bool.or_eq_true, decide_eq_true_eq, not_or]
   omega
 
+/-- the first `setExponent` pass: it fails, or every summand and the adjusted exponent are within
+the limits and the exponent becomes the sum -/
+theorem apdSetExponent_cases (coeff : Nat) (xs : List Int) :
+    apdSetExponent coeff xs = (0, true) ∨
+    (apdSetExponent coeff xs = (xs.foldl (· + ·) 0, false) ∧
+      (∀ x ∈ xs, -100000 ≤ x ∧ x ≤ 100000) ∧
+      -100000 ≤ xs.foldl (· + ·) 0 + (numDigits coeff : Int) - 1 ∧
+      xs.foldl (· + ·) 0 + (numDigits coeff : Int) - 1 ≤ 100000) := by
+  have hM : apdMaxExponent = 100000 := rfl
+  have hm : apdMinExponent = -100000 := rfl
+  by_cases hany : (xs.any fun x => decide (x > apdMaxExponent) || decide (x < apdMinExponent)) = true
+  · left
+    unfold apdSetExponent
+    rw [if_pos hany]
+  · have hany' : (xs.any fun x => decide (x > apdMaxExponent) || decide (x < apdMinExponent)) = false := by
+      simpa using hany
+    have hall : ∀ x ∈ xs, -100000 ≤ x ∧ x ≤ 100000 := by
+      intro x hx
+      have := List.any_eq_false.mp hany' x hx
+      simp only [Bool.or_eq_true, decide_eq_true_eq, not_or] at this
+      omega
+    by_cases hadj : -100000 ≤ xs.foldl (· + ·) 0 + (numDigits coeff : Int) - 1 ∧
+        xs.foldl (· + ·) 0 + (numDigits coeff : Int) - 1 ≤ 100000
+    · right
+      exact ⟨apdSetExponent_ok coeff xs hall hadj.1 hadj.2, hall, hadj⟩
+    · left
+      unfold apdSetExponent
+      rw [hany']
+      simp only [Bool.false_eq_true, if_false]
+      rw [if_pos]
+      simp only [Bool.or_eq_true, decide_eq_true_eq]
+      omega
+
+theorem apdFin_ok (coeff : Nat) (xs : List Int)
+    (h : ∀ x ∈ xs, -100000 ≤ x ∧ x ≤ 100000)
+    (h1 : -100000 ≤ xs.foldl (· + ·) 0 + (numDigits coeff : Int) - 1)
+    (h2 : xs.foldl (· + ·) 0 + (numDigits coeff : Int) - 1 ≤ 100000)
+    (h3 : -100000 ≤ xs.foldl (· + ·) 0) :
+    apdFin coeff xs = (.finite false coeff (xs.foldl (· + ·) 0), false) := by
+  have hM : apdMaxExponent = 100000 := rfl
+  have hm : apdMinExponent = -100000 := rfl
+  have hnd := numDigits_pos coeff
+  unfold apdFin
+  rw [apdSetExponent_ok coeff xs h h1 h2]
+  simp only [Bool.false_or, Prod.mk.injEq, true_and, Bool.or_eq_false_iff, decide_eq_false_iff_not]
+  omega
+
+/-- outside the region `Context.SetString` returns an error -/
+theorem apdFin_bad (coeff : Nat) (xs : List Int)
+    (h : ¬ ((∀ x ∈ xs, -100000 ≤ x ∧ x ≤ 100000) ∧
+      -100000 ≤ xs.foldl (· + ·) 0 + (numDigits coeff : Int) - 1 ∧
+      xs.foldl (· + ·) 0 + (numDigits coeff : Int) - 1 ≤ 100000 ∧
+      -100000 ≤ xs.foldl (· + ·) 0)) :
+    (apdFin coeff xs).2 = true := by
+  have hm : apdMinExponent = -100000 := rfl
+  unfold apdFin
+  rcases apdSetExponent_cases coeff xs with h0 | ⟨h0, hall, ha1, ha2⟩
+  · rw [h0]; rfl
+  · rw [h0]
+    have hS : xs.foldl (· + ·) 0 < apdMinExponent := by
+      rw [hm]
+      have : ¬ (-100000 ≤ xs.foldl (· + ·) 0) := fun hc => h ⟨hall, ha1, ha2, hc⟩
+      omega
+    simp [hS]
 
 theorem sum_exps (e : Option JExp) (f : Option Bytes) :
     (expList e ++ fracExps f).foldl (· + ·) 0 = expValue e - ((fracDigits f).length : Int) := by
   cases e <;> cases f <;> simp [expList, fracExps, expValue, fracDigits] <;> omega
 
-/-- apd's `SetString` on the unsigned spelling, within the exponent limits -/
-theorem apdSetString_utext (n : JNum) (hwf : n.wf = true) (hr : n.inApdRange) :
-    (apdSetString n.utext).1 = .finite false n.coeff n.exponent := by
+theorem exps_range (e : Option JExp) (f : Option Bytes) :
+    (∀ x ∈ expList e ++ fracExps f, -100000 ≤ x ∧ x ≤ 100000) ↔
+      (-100000 ≤ expValue e ∧ expValue e ≤ 100000 ∧ (fracDigits f).length ≤ 100000) := by
+  cases e <;> cases f <;> simp [expList, fracExps, expValue, fracDigits] <;> omega
+
+/-- `inApdRange` in terms of the summands handed to `setExponent` -/
+theorem inApdRange_iff (n : JNum) :
+    n.inApdRange ↔
+      ((∀ x ∈ expList n.exp ++ fracExps n.frac, -100000 ≤ x ∧ x ≤ 100000) ∧
+      -100000 ≤ (expList n.exp ++ fracExps n.frac).foldl (· + ·) 0 + (numDigits n.coeff : Int) - 1 ∧
+      (expList n.exp ++ fracExps n.frac).foldl (· + ·) 0 + (numDigits n.coeff : Int) - 1 ≤ 100000 ∧
+      -100000 ≤ (expList n.exp ++ fracExps n.frac).foldl (· + ·) 0) := by
+  rw [exps_range, sum_exps]
+  unfold JNum.inApdRange JNum.exponent
+  constructor
+  · rintro ⟨h1, h2, h3, h4, h5, h6⟩; exact ⟨⟨h1, h2, h3⟩, h4, h5, h6⟩
+  · rintro ⟨⟨h1, h2, h3⟩, h4, h5, h6⟩; exact ⟨h1, h2, h3, h4, h5, h6⟩
+
+/-- apd's `SetString` on the unsigned spelling, stage by stage -/
+theorem apdSetString_stages (n : JNum) (hwf : n.wf = true) :
+    apdSetString n.utext =
+      match expParse n.exp with
+      | none => (.nan false, true)
+      | some xs => apdFin n.coeff (xs ++ fracExps n.frac) := by
   obtain ⟨d, t, hdt, hd1, hd2, -⟩ := utext_head n hwf
   have hlow := toLower_utext n hwf
   have hwf' := hwf
   simp only [JNum.wf, Bool.and_eq_true, Bool.not_eq_true', Bool.or_eq_true, beq_iff_eq] at hwf'
   obtain ⟨⟨⟨⟨hne, hds⟩, hz⟩, hf⟩, he⟩ := hwf'
-  obtain ⟨hr1, hr2, hr3, hr4, hr5⟩ := hr
-  have hsplit := apdExpSplit_eq (n.int ++ fracText n.frac) n.exp (mant_no_e n.int n.frac hds hf) he
-    ⟨hr1, hr2⟩
-  have hsum := sum_exps n.exp n.frac
-  have hexp : apdSetExponent (digitsVal (n.int ++ fracDigits n.frac)) (expList n.exp ++ fracExps n.frac) =
-      (n.exponent, false) := by
-    have := apdSetExponent_ok (digitsVal (n.int ++ fracDigits n.frac)) (expList n.exp ++ fracExps n.frac)
-      ?_ ?_ ?_
-    · rw [this, hsum]; rfl
-    · intro x hx
-      rw [List.mem_append] at hx
-      rcases hx with hx | hx
-      · cases hex : n.exp with
-        | none => rw [hex] at hx; cases hx
-        | some e =>
-          rw [hex] at hx hr1 hr2
-          simp only [expList, List.mem_singleton] at hx
-          simp only [expValue] at hr1 hr2
-          omega
-      · cases hfr : n.frac with
-        | none => rw [hfr] at hx; cases hx
-        | some f =>
-          rw [hfr] at hx hr3
-          simp only [fracExps, List.mem_singleton] at hx
-          simp only [fracDigits] at hr3
-          omega
-    · rw [hsum]; exact hr4
-    · rw [hsum]; exact hr5
+  have hsplit := apdExpSplit_eq (n.int ++ fracText n.frac) n.exp (mant_no_e n.int n.frac hds hf)
   have h1 : apdSetString n.utext = apdCore (toLowerAscii n.utext) := by
     rw [hdt]; exact apdSetString_digit d t hd1 hd2
   rw [h1, hlow]
   unfold apdCore
   rw [hsplit]
-  simp only
-  rw [apdMant_eq n.int n.frac _ hne hds hf, hexp]
-  rfl
+  cases expParse n.exp with
+  | none => rfl
+  | some xs =>
+    simp only [Option.map_some]
+    rw [apdMant_eq n.int n.frac _ hne hds hf]
+    rfl
+
+/-- within the region: no error, and the decimal the spelling denotes -/
+theorem apdSetString_utext (n : JNum) (hwf : n.wf = true) (hr : n.inApdRange) :
+    apdSetString n.utext = (.finite false n.coeff n.exponent, false) := by
+  have he : expWf n.exp = true := by
+    simp only [JNum.wf, Bool.and_eq_true] at hwf; exact hwf.2
+  have hr' := hr
+  obtain ⟨hr1, hr2, -⟩ := hr'
+  rw [apdSetString_stages n hwf]
+  rcases expParse_cases n.exp he with ⟨hp, -, -⟩ | ⟨-, hb⟩
+  · rw [hp]
+    obtain ⟨h1, h2, h3, h4⟩ := (inApdRange_iff n).mp hr
+    simp only
+    rw [apdFin_ok _ _ h1 h2 h3 h4, sum_exps]
+    rfl
+  · omega
+
+/-- outside the region: an error -/
+theorem apdSetString_err (n : JNum) (hwf : n.wf = true) (hr : ¬ n.inApdRange) :
+    (apdSetString n.utext).2 = true := by
+  have he : expWf n.exp = true := by
+    simp only [JNum.wf, Bool.and_eq_true] at hwf; exact hwf.2
+  rw [apdSetString_stages n hwf]
+  rcases expParse_cases n.exp he with ⟨hp, -, -⟩ | ⟨hp, -⟩
+  · rw [hp]
+    exact apdFin_bad _ _ (fun h => hr ((inApdRange_iff n).mpr h))
+  · rw [hp]
 
 /-- Within apd's exponent limits the decoder reads exactly the decimal the spelling denotes
 (`-0` becomes `0`: apd's Neg clears the sign of zero). -/
 theorem number_value (n : JNum) (hwf : n.wf = true) (hr : n.inApdRange) :
     decodeNumber n.text = some (n.kind, .finite (n.neg && n.coeff != 0) n.coeff n.exponent) := by
   rw [decodeNumber_eq n hwf, apdSetString_utext n hwf hr]
+  simp only [Bool.false_eq_true, if_false]
   cases n.neg with
   | false => rfl
   | true =>
@@ -742,9 +875,16 @@ theorem number_value (n : JNum) (hwf : n.wf = true) (hr : n.inApdRange) :
     · simp [h0]
     · simp [h0]
 
-/-- witness outside the limits: `1e100001` silently reads as `1` -/
+/-- Outside the limits the decoder rejects the number (apd's error is returned since
+`NumInfo.decimal` no longer discards it): never a silently different value. -/
+theorem number_reject (n : JNum) (hwf : n.wf = true) (hr : ¬ n.inApdRange) :
+    decodeNumber n.text = none := by
+  rw [decodeNumber_eq n hwf, apdSetString_err n hwf hr]
+  rfl
+
+/-- witness outside the limits: `1e100001` is rejected -/
 theorem number_value_witness :
-    decodeNumber [49, 101, 49, 48, 48, 48, 48, 49] = some (.float, .finite false 1 0) := by
+    decodeNumber [49, 101, 49, 48, 48, 48, 48, 49] = none := by
   decide
 
 end CueVerif.Json
